@@ -284,6 +284,21 @@ fn negatives(ctx: &mut Ctx, label: &str, tag: u8, locked_body: &[u8], pw: &[u8],
     while pos < end {
         let mut b = locked_body.to_vec();
         b[pos / 8] ^= 1 << (pos % 8);
+        // a flip inside the S2K specifier may ask for a legitimately expensive derivation (Argon2 with hundreds of
+        // MiB, iterated counts of tens of megabytes): those are C19's business, not judged here
+        let costly = match RefSecret::parse(&b).map(|r| r.protection) {
+            Some(RefProtection::Cfb { s2k, .. }) | Some(RefProtection::MalleableCfb { s2k, .. }) | Some(RefProtection::Aead { s2k, .. }) => match s2k {
+                RefS2k::Argon2 { t, p, m, .. } => m <= 31 && (1u64 << m) * t.max(1) as u64 * p.max(1) as u64 > (64 << 10),
+                RefS2k::Iterated { count, .. } => count > 0x90,
+                _ => false,
+            },
+            _ => false,
+        };
+        if costly {
+            ctx.tally("neg.flip.skipped-costly-s2k", 1);
+            pos += if pos / 8 < publen + 40 && pos / 8 >= publen { 1 } else { flips_step };
+            continue;
+        }
         let region = if pos / 8 < publen { "public" } else { "secret" };
         let mut normalised_away = false;
         let r = ctx.guarded("C08/neg", || json!({"base": replay, "flip_bit": pos}), || match Sk::parse(tag, &b) {
@@ -314,7 +329,9 @@ fn negatives(ctx: &mut Ctx, label: &str, tag: u8, locked_body: &[u8], pw: &[u8],
                 );
             }
         }
-        pos += flips_step;
+        // the usage octet, cipher / AEAD octets and the S2K specifier (first 40 octets behind the public part):
+        // every bit; the rest in steps
+        pos += if pos / 8 < publen + 40 && pos / 8 >= publen { 1 } else { flips_step };
     }
     if weak_accepts.len() >= 3 {
         ctx.violation(
@@ -369,6 +386,10 @@ pub fn run(ctx: &mut Ctx) {
                 RefS2k::Iterated { hash: 10, salt: salt8, count: 0x42 },
                 RefS2k::Argon2 { salt: salt16, t: 1, p: 1, m: 6 },
                 RefS2k::Argon2 { salt: salt16, t: 2, p: 2, m: 7 },
+                // the smallest legal memory exponents (3 + ceil(log2 p)): every flip downwards is illegal
+                RefS2k::Argon2 { salt: salt16, t: 1, p: 1, m: 3 },
+                RefS2k::Argon2 { salt: salt16, t: 1, p: 4, m: 5 },
+                RefS2k::Argon2 { salt: salt16, t: 3, p: 3, m: 5 },
                 RefS2k::Salted { hash: 8, salt: salt8 },
                 RefS2k::Simple { hash: 8 },
             ] {
@@ -568,6 +589,67 @@ pub fn run(ctx: &mut Ctx) {
                     }
                     if gi % 101 == 0 {
                         ctx.sample(json!({"family": "W", "key": kname, "class": cls, "wire": hexs(&wire), "password": hexs(&pw)}));
+                    }
+                }
+            }
+        }
+    }
+
+    // ---- family G: the other locking interface, the key builder's `passphrase` option (incl. the empty
+    // password): every secret packet of the generated key is protected, opens with that password and with no other
+    {
+        let specs = [
+            Spec::simple(false, Alg::Ed25519Legacy, Some(Alg::EcdhCv25519)),
+            Spec::simple(true, Alg::Ed25519, Some(Alg::X25519)),
+            Spec::simple(false, Alg::EcdsaP256, Some(Alg::EcdhP256)),
+            Spec::simple(true, Alg::Ed448, Some(Alg::X448)),
+        ];
+        let pws: [&str; 4] = ["", "x", "p\u{e4}ssw\u{f6}rd with blanks ", "0123456789012345678901234567890123456789012345678901234567890123456789"];
+        for (si, base) in specs.iter().enumerate() {
+            for (pi, pw) in pws.iter().enumerate() {
+                if !ctx.mine() {
+                    continue;
+                }
+                describe_case(&format!("G builder {} pw #{pi}", base.name()));
+                let mut spec = base.clone();
+                spec.sign_sub = Some(if base.v6 { Alg::Ed25519 } else { Alg::Ed25519Legacy });
+                spec.passphrase = Some(pw.to_string());
+                let mut rng = ctx.rng("G", (si * 10 + pi) as u64);
+                let replay = json!({"family": "G", "spec": base.name(), "password": pw});
+                let Some(Ok(key)) = ctx.guarded("C08/builder", || replay.clone(), || zoo::generate(&spec, &mut rng)) else {
+                    ctx.inconclusive(format!("builder refused passphrase #{pi} for {}", base.name()));
+                    continue;
+                };
+                let mut packets: Vec<(String, Sk)> = vec![("primary".into(), Sk::P(key.primary_key.clone()))];
+                for (j, s) in key.secret_subkeys.iter().enumerate() {
+                    packets.push((format!("subkey{j}"), Sk::S(s.key.clone())));
+                }
+                for (what, sk) in packets {
+                    ctx.eval();
+                    ctx.cover(&("G", base.name(), pi, &what));
+                    ctx.seen("G.password-class", if pw.is_empty() { "empty" } else if pw.is_ascii() { "ascii" } else { "non-ascii" });
+                    let body = sk.body();
+                    let locked = RefSecret::parse(&body).map(|r| r.protection != RefProtection::None);
+                    if locked != Some(true) {
+                        ctx.violation(
+                            format!("C08/builder/not-protected/{what}"),
+                            format!("key built with passphrase {pw:?}: the {what} secret packet is written unprotected (reference view: {locked:?})"),
+                            json!({"base": replay, "packet": hexs(&body)}),
+                        );
+                        continue;
+                    }
+                    if let Some(Err(e)) = ctx.guarded("C08/builder", || replay.clone(), || sk.unlock(&Password::from(*pw))) {
+                        ctx.violation(format!("C08/builder/unlock-failed/{what}"), format!("key built with passphrase {pw:?}: {what} does not open with it: {e}"), json!({"base": replay, "packet": hexs(&body)}));
+                    }
+                    for w in wrong_passwords(pw.as_bytes()) {
+                        if let Some(Ok(_)) = ctx.guarded("C08/builder", || replay.clone(), || sk.unlock(&Password::from(&w[..]))) {
+                            ctx.violation(
+                                format!("C08/builder/wrong-password-accepted/{what}"),
+                                format!("key built with passphrase {pw:?}: {what} opens with the other password {}", hexs(&w)),
+                                json!({"base": replay, "packet": hexs(&body)}),
+                            );
+                            break;
+                        }
                     }
                 }
             }
